@@ -35,6 +35,7 @@ def run(F, R, ctx):
     _run(F, R, ctx)
     reentrant_drop_rule(F, R)
     depth_counter_rule(F, R)
+    iterative_visitor_rule(F, R)
 
 
 def _run(F, R, ctx):
@@ -332,3 +333,37 @@ def depth_counter_rule(F, R):
                    % (fn.short(), fld, bad[0][0] if bad else "", bad[0][1] if bad else ""), fn.loc(bad[0][0] if bad else None),
                    sample={"increments": len(incs[fld]), "decrements": len(decs[fld]), "self_calls": len(selfcalls)})
     R.floor("C18.g", "self-recursive functions with a depth counter", n, 1)
+
+
+def iterative_visitor_rule(F, R):
+    R.rule("C18.m", "the breadth-first value visitors are iterative: for every type that implements one of the "
+                    "BreadthFirstSearch…Visitor traits (collector markers, slot recycler, cycle collector, drop handler, equality "
+                    "visitor) the call graph over the type's own methods, its trait methods, their closures and the functions of "
+                    "the same module that take the visitor has no cycle. Children are handed to the work queue; a visit method "
+                    "that calls another visit method which can call it back descends natively once per level of the value")
+    types = {}
+    for n in F.fns:
+        m = re.search(r"\{impl (BreadthFirstSearch\w+)(?:<[^{}]*>)? for ([\w<>',\s]+?)\}::", n)
+        if m and n.startswith("steel::"):
+            types.setdefault(re.sub(r"<.*", "", m.group(2)), set()).add(m.group(1))
+    R.floor("C18.m", "types implementing a breadth-first visitor trait", len(types), 4)
+    ce, _ = F.graph()
+    for T in sorted(types):
+        rx = re.compile(r"\{impl (?:\w+(?:<[^{}]*>)? for )?%s(?:<[^{}]*>)?\}::" % re.escape(T))
+        nodes = [n for n in F.fns if rx.search(n)]
+        mods = {n.split("::{impl")[0] for n in nodes}
+        for n, fn in F.fns.items():
+            if n not in nodes and n.split("::")[0] == "steel" and any(n.startswith(m + "::") for m in mods) and \
+                    any(re.search(r"\b%s\b" % re.escape(T), t) for t in (fn.d.get("in") or [])):
+                nodes.append(n)
+        ns = set(nodes)
+
+        def succ(x):
+            return [c for c in ce.get(x, ()) if c in ns]
+        cyc = [c for c in lib.sccs(nodes, succ) if len(c) > 1 or c[0] in succ(c[0])]
+        first = sorted(cyc[0]) if cyc else []
+        R.inst("C18.m", "%s visits through its queue (no call cycle among its methods)" % T, not cyc,
+               cyc and ("the methods of %s call each other in a cycle: %s — each level of a nested value (a closure capturing a "
+                        "variable that holds a closure …) is a native frame, so a deep chain alive at a collection / comparison / "
+                        "drop overflows the native stack" % (T, " -> ".join(lib.short_name(x) for x in first))),
+               F.fns[first[0]].loc() if first else "", sample={"methods": len(nodes), "traits": sorted(types[T])})
